@@ -75,6 +75,11 @@ def base_forms(tier):
                                          {"type": "select_one c", "name": "s", "label": "S\n\nafter blank line", "constraint": "regex(., 'a|b|c|d|e|f') and . != 'a'", "constraint_message": "m1\nm2"}],
                               "choices": [{"list_name": "c", "name": "x", "label": "Yes\n(start now)"}, {"list_name": "c", "name": "y", "label": "a|b \\ c"}],
                               "settings": [{"form_title": "T,1 \"x\"", "form_id": "ml"}]}))
+    # cells that begin with, hold or end with '#' (the markdown reader knows trailing comments)
+    out.append(("hashes", {"survey": [{"type": "integer", "name": "q", "label": "# of children under 18", "hint": "#", "constraint": ". >= 0", "constraint_message": "#1 rule: no negatives #"},
+                                      {"type": "select_one c", "name": "s", "label": "Pick #", "hint": "a # b"}],
+                           "choices": [{"list_name": "c", "name": "x", "label": "#1"}, {"list_name": "c", "name": "y", "label": "No. #2 #"}],
+                           "settings": [{"form_title": "# Title", "form_id": "hashes"}]}))
     # broken workbooks: the refusal (error type, text, cited row) must be the same through every container
     q = {"type": "text", "name": "q", "label": "Q"}
     ch = [{"list_name": "c", "name": "x", "label": "X"}, {"list_name": "c", "name": "y", "label": "Y"}]
@@ -143,6 +148,11 @@ def gen_paths(tier):
                 for ch in ("path_str", "path_like"):
                     for explicit in (True, False):
                         yield {"k": "container", "base": name, "wb": wb, "fmt": fmt, "ch": ch, "explicit": explicit, "suffix": suffix}
+            # a suffix naming another supported format: the caller's explicit file_type is what counts
+            for other in ("md", "csv", "xls", "xlsx"):
+                if other != fmt:
+                    for ch in ("path_str", "path_like"):
+                        yield {"k": "container", "base": name, "wb": wb, "fmt": fmt, "ch": ch, "explicit": True, "suffix": "." + other}
 
 
 TYPED_WB = {
